@@ -109,6 +109,19 @@ class C10(Property):
         for t in ["[General]\nਊ: ਊ\nB: c", "[General]\nA: ੁ\n", "[General]\n上上\n上", "[Metadata]\nTitle:𐐊𐐊\nArtist:Ċ", "ਊ\n[General]\nਊ"]:
             enc4(t, "pin-read_line")
 
+        # a character outside the BMP at every column of a long line, around every multiple of 64 code units up to 600: a reader that
+        # converts a UTF-16 line in fixed-size blocks splits a surrogate pair at a block boundary (seed C10-s: 128-unit blocks)
+        cols = [c for m in range(64, 601, 64) for c in range(m - 3, m + 2)]
+        for k in (cols if quick else range(1, 700)):
+            for ch in ("\U0001F3B5", "\U00010400"):
+                pad = k - len("TitleUnicode:")
+                if pad < 0:
+                    continue
+                enc4("[Metadata]\nTitleUnicode:" + "a" * pad + ch + " end\nArtist:é" + "b" * (k % 7) + ch + ch + "\n", "astral-at-column")
+        # text whose first character is U+0000 (then the UTF-16LE bytes begin FF FE 00 00, the UTF-32LE byte-order mark: seed C10-t), NUL elsewhere
+        for t in ["\0\n[General]\nAudioFilename: a.mp3\n\n[Metadata]\nTitle:abc\n", "\0[Metadata]\nTitle:abc\n", "\0\0\n[Metadata]\nTitle:a\0b\n", "\n\0\n[Metadata]\nTitle:abc\n",
+                  "[Metadata]\nTitle:\0\nArtist:x\0\n"]:
+            enc4(t, "leading-nul")
         # the same text in four encodings
         for _ in range(1200 if quick else 30000):
             text, stray = gen_text(rng)
